@@ -94,19 +94,34 @@ def rule_fallback(check):
                 ok = bool(same_map and orig and fb)
         check.expect(ok, R, R + "/final-map", hir.loc(n), "final map = chain_source_maps(source_map, original.source, config) or else source_map", "final map is not `chain_source_maps(..).unwrap_or_else(|| source_map)`")
     cs = prog.fn("rewriter::chain_source_maps")
-    th = [n for n in hir.calls_in(cs.body, name="then")]
-    ok1 = len(th) == 1 and (hir.place(hir.call_args(th[0])[0]) or "").endswith("config.chain_source_map") or (len(th) == 1 and (hir.place(hir.call_args(th[0])[0]) or "").endswith(".chain_source_map"))
-    at = [n for n in hir.calls_in(cs.body, name="and_then")]
-    recvs = []
-    for n in at:
-        r = hir.peel(hir.call_args(n)[0])
-        recvs.append(hir.callee_name(r) if hir.is_call(r) else hir.describe(r))
-    inner_ok = False
-    if th:
-        cl = hir.peel(hir.call_args(th[0])[1])
-        inner_ok = cl.get("k") == "Closure" and all(any(x is n for x in hir.walk(cl["body"])) for n in at)
-    ok2 = sorted(str(r) for r in recvs) == ["as_ref", "parse_source_map"]
-    check.expect(bool(ok1 and ok2 and inner_ok), R, R + "/chain-conditions", hir.loc(cs.rec), "Some only if config.chain_source_map, original map Some and rewrite map parsed", "chain_source_maps conditions changed (then on %s; and_then on %s)" % ([hir.place(hir.call_args(x)[0]) for x in th], recvs))
+    # the composition runs exactly under: chaining configured, original map present, rewrite map parsed -
+    # whether written with bool::then / and_then closures, `?`, or guard clauses
+    sites = [n for n in hir.calls_in(cs.body, name="add_raw")]
+    check.floor(R, "add_raw sites in chain_source_maps", len(sites), 1)
+    for n in sites:
+        gates_ = set()
+        for c in cs.conds_at(n):
+            if c["t"] == "closure":
+                par = cs.parent(c["node"])
+                while par is not None and par.get("k") in ("DropTemps", "Use", "AddrOf"):
+                    par = cs.parent(par)
+                if par is not None and hir.is_call(par) and (par.get("method") or hir.callee_name(par)) in ("then", "and_then", "map", "then_some"):
+                    r = hir.peel(hir.call_args(par)[0])
+                    gates_.add(hir.callee_name(r) if hir.is_call(r) and hir.callee_name(r) not in ("as_ref", "as_deref") else (hir.place(hir.call_args(r)[0]) if hir.is_call(r) else hir.place(r)) or hir.describe(r))
+            elif c["t"] == "try":
+                e = hir.peel(c["e"])
+                if hir.is_call(e) and (hir.callee_name(e) or "") == "branch" and hir.call_args(e):
+                    e = hir.peel(hir.call_args(e)[0])
+                gates_.add(hir.callee_name(e) if hir.is_call(e) and hir.callee_name(e) not in ("as_ref", "as_deref") else (hir.place(hir.call_args(e)[0]) if hir.is_call(e) else hir.place(e)) or hir.describe(e))
+            elif c["t"] == "bool" and c["v"] is True:
+                pl = hir.place(hir.peel(c["e"]))
+                if pl:
+                    gates_.add(pl)
+        import re as _re
+
+        names_ = {_re.sub(r"#\d+", "", str(g_)).split(".")[-1] for g_ in gates_ if g_}
+        need = {"chain_source_map", "original_map", "parse_source_map"}
+        check.expect(need <= names_, R, R + "/chain-conditions", hir.loc(n), "composed only if config.chain_source_map, original map Some and rewrite map parsed", "chain_source_maps composes without %s (conditions on the path: %s)" % (sorted(need - names_), sorted(names_)))
     ps = [n for n in hir.calls_in(cs.body, name="parse_source_map")]
     for n in ps:
         os_ = pv.origins(cs, hir.call_args(n)[0])
